@@ -78,6 +78,8 @@ type Conn struct {
 	WriteErr       error
 	// OnClose is called once (without the lock) when the connection is first closed.
 	OnClose func()
+	// CloseDelay makes Close take that long before the connection counts as closed.
+	CloseDelay time.Duration
 	// CloseErr is returned by the first Close (the connection is closed all the same).
 	CloseErr error
 	// OnGate is called (without the lock) at gates: "write:before:<i>", "write:after:<i>", item gates.
@@ -462,6 +464,9 @@ func itoa(i int) string {
 }
 
 func (c *Conn) Close() error {
+	if c.CloseDelay > 0 {
+		time.Sleep(c.CloseDelay) // a transport that takes a moment to go down (TLS close_notify, FIN)
+	}
 	c.mu.Lock()
 	was := c.closed
 	c.rec(Event{Op: "close"})
